@@ -565,6 +565,24 @@ def proof_phase(ctx, mod):
     if not ok:
         ctx.build_failed = True
         return False
+    # facts of the reviewed tree that a harmless change may take away (declared by the check as OPTIONAL_MODULES): built and audited
+    # when they hold; when they do not, that is said — it is neither a lost tie nor a broken obligation
+    opt_mods, opt_thms = list(getattr(mod, "OPTIONAL_MODULES", [])), list(getattr(mod, "OPTIONAL_THEOREMS", []))
+    ctx.optional_lost = []
+    if opt_mods:
+        oko, logo = lake_build(opt_mods)
+        if oko:
+            targets = targets + opt_mods
+            theorems = theorems + opt_thms
+            ctx.obligations = len(theorems)
+        else:
+            ctx.optional_lost = opt_thms
+            why = " ".join(l.strip() for l in logo.split("\n") if "error" in l.lower())[:300]
+            msg = ("facts of the reviewed tree that no longer hold on this one (not required by the property; the theorems about the "
+                   "entries the reviewed tree had still check): %s — %s" % (", ".join(opt_thms), why))
+            ctx.notes.append(msg)
+            ctx.assumptions.append(msg)
+            print("NOTE property=%s %s" % (ctx.pid, msg[:400]))
     if not okd:
         ok_all = False
     ctx.build_failed = False
